@@ -22,7 +22,7 @@ from engine.absint import bool_table, int_eval
 from engine.cfg import call_name, cfg_of
 from engine.errors import AnalysisError
 from engine.repo import walk_no_nested
-from engine.util import calls_in, unparse
+from engine.util import calls_in, unparse, xsrc
 
 ID = 'C08'
 SB = 'sdc11073.provider.subscriptionmgr_base'
@@ -75,7 +75,7 @@ def run(ctx):  # noqa: C901, PLR0912, PLR0915
     for q in (f'{SB}.SubscriptionsManagerBase.send_to_subscribers',
               'sdc11073.provider.subscriptionmgr_async.BICEPSSubscriptionsManagerBaseAsync.send_to_subscribers'):
         fi = repo.func(q)
-        src = unparse(fi.node)
+        src = xsrc(fi)
         ok = 'self._get_subscriptions_for_action(action)' in src
         loops = [n for n in walk_no_nested(fi.node) if isinstance(n, ast.For) and unparse(n.iter) == 'subscribers']
         ok = ok and len(loops) == 1
@@ -83,7 +83,7 @@ def run(ctx):  # noqa: C901, PLR0912, PLR0915
                'send_to_subscribers sends once to every selected subscriber and to nobody else', fi=fi)
     # matches()
     mt = repo.func(f'{SB}.ActionBasedSubscription.matches')
-    src = unparse(mt.node)
+    src = xsrc(mt)
     ctx.ob('C08.R1', 'matches', 'any(' in src and 'endswith(action)' in src and 'self.actions_filter' in src,
            'matches() is true iff one filter entry ends with the action', fi=mt)
 
@@ -136,7 +136,7 @@ def run(ctx):  # noqa: C901, PLR0912, PLR0915
            'renew(): granted duration = min(requested, maximum) (maximum if none requested), start on the monotonic '
            'clock - evaluated for requested <, =, > maximum, None and 0', fi=rn, witness=wit)
     rs = repo.func(f'{SB}.SubscriptionBase.remaining_seconds')
-    src = unparse(rs.node)
+    src = xsrc(rs)
     ok = 'max(duration, 0)' in src and 'self._expire_seconds - (time.monotonic() - self._started)' in src
     ctx.ob('C08.R3', 'remaining_seconds', ok,
            'remaining_seconds = max(expire - (monotonic now - start), 0)', fi=rs)
@@ -156,7 +156,7 @@ def run(ctx):  # noqa: C901, PLR0912, PLR0915
            'on_renew_request renews first and reports the remaining time afterwards', fi=rq)
     # the constructor goes through renew, too
     init = repo.func(f'{SB}.SubscriptionBase.__init__')
-    ctx.ob('C08.R3', 'initial expiry through renew', 'self.renew(subscribe_request.Expires)' in unparse(init.node),
+    ctx.ob('C08.R3', 'initial expiry through renew', 'self.renew(subscribe_request.Expires)' in xsrc(init),
            'the initial expiry is computed by renew(subscribe_request.Expires)', fi=init)
 
     # ------------------------------------------------------------------ R4
@@ -251,7 +251,7 @@ def run(ctx):  # noqa: C901, PLR0912, PLR0915
                                                   ('send_notification_end_message', 'async_send_notification_end_message'))]
         if not sends:
             raise AnalysisError(f'C08.R5: no end message call in {q}')
-        src = unparse(fi.node)
+        src = xsrc(fi)
         for n, c in sends:
             facts = g.facts_at(n)
             switch = ('send_subscription_end', True) in facts
@@ -269,7 +269,7 @@ def run(ctx):  # noqa: C901, PLR0912, PLR0915
                'all subscriptions are closed and the table is cleared after the end messages were sent', fi=fi)
     for q, post in END_SENDERS:
         fi = repo.func(q)
-        src = unparse(fi.node)
+        src = xsrc(fi)
         ok = 'addr_to=self.end_to_address or self.notify_to_address' in src and \
             'reference_parameters=self.end_to_ref_params or self.notify_ref_params' in src and \
             'url = self._end_to_url or self.notify_to_url' in src
@@ -287,10 +287,10 @@ def run(ctx):  # noqa: C901, PLR0912, PLR0915
         ctx.ob('C08.R5', f'{fi.name}: connection and path agree', ok,
                'the end message is posted to the path of the url whose netloc selected the client', fi=fi)
     sa = repo.func(f'{SB}.SubscriptionsManagerBase.stop_all')
-    ctx.ob('C08.R5', 'stop_all passes the switch', '_end_all_subscriptions(send_subscription_end)' in unparse(sa.node),
+    ctx.ob('C08.R5', 'stop_all passes the switch', '_end_all_subscriptions(send_subscription_end)' in xsrc(sa),
            'stop_all forwards send_subscription_end', fi=sa)
     init = repo.func(f'{SB}.SubscriptionBase.__init__')
-    src = unparse(init.node)
+    src = xsrc(init)
     ok = 'self.end_to_address = subscribe_request.EndTo.Address' in src and \
         'self.end_to_ref_params = subscribe_request.EndTo.ReferenceParameters' in src and \
         'self.notify_to_address = subscribe_request.Delivery.NotifyTo.Address' in src
